@@ -1995,11 +1995,49 @@ def surface():
                 for d in re.finditer(r"#\[derive\(([^)]*)\)\]", m.group(1)):
                     ders += [x.strip() for x in d.group(1).split(",") if x.strip()]
                 out.append((rel, "%s %s" % (m.group(2), m.group(3)), ders))
+                # the fields of a struct with named fields: its state
+                if m.group(2) == "struct":
+                    j = m.end()
+                    ob, sq = -1, 0
+                    while j < len(txt):
+                        ch = txt[j]
+                        if ch == "[":
+                            sq += 1
+                        elif ch == "]":
+                            sq -= 1
+                        elif ch in ";(" and sq == 0:
+                            break
+                        elif ch == "{":
+                            ob = j
+                            break
+                        j += 1
+                    if ob >= 0:
+                        blk = txt[ob + 1:match_brace(txt, ob)]
+                        fields, depth, cur = [], 0, ""
+                        for ch in blk:
+                            if ch in "<([{":
+                                depth += 1
+                            elif ch in ">)]}":
+                                depth -= 1
+                            if ch == "," and depth == 0:
+                                fields.append(cur)
+                                cur = ""
+                            else:
+                                cur += ch
+                        fields.append(cur)
+                        fl = []
+                        for f0 in fields:
+                            f0 = re.sub(r"#\[[^\]]*\]", "", f0)
+                            f0 = re.sub(r"\bpub(\([a-z]+\))?\s+", "", f0).strip()
+                            if ":" in f0:
+                                nm, ty = f0.split(":", 1)
+                                fl.append("%s: %s" % (nm.strip(), re.sub(r"\s+", "", ty)))
+                        out.append((rel, "fields " + m.group(3), fl))
     return out
 
 
 def split_hdr(n):
-    for k in ("trait", "struct", "enum", "fn"):
+    for k in ("trait", "struct", "enum", "fn", "fields"):
         if n.startswith(k + " "):
             return (k, n[len(k) + 1:])
     if " for " in n:
